@@ -1,2 +1,208 @@
--- stub: replaced by the mvcc engine driver
-def main : IO Unit := pure ()
+/-
+Line-protocol driver for the MVCC engine (C03, C04).
+Reply format: `<model>\t<spec>`; spec patterns: `*` anything, `a|b` alternatives, `pre*` prefix.
+
+The *spec* column is computed from an independent abstract state (the property's own
+vocabulary): a current key→value map, the list of successful commits with the keys they wrote,
+per transaction the map snapshot taken at `begin`, its own writes and the set of keys it read
+from the snapshot.  It never looks at the oracle, the watermark or the versioned store of the
+model.  Two choices the specification leaves open are taken from the model's (separately
+compared) answer: whether a `set`/`commit` that *may* fail did fail, and which version number a
+successful commit received — the spec then demands that this number exceeds every version and
+read timestamp handed out before.
+-/
+import Driver.Lib
+import NoKVModel.Mvcc.Model
+
+open NoKV NoKV.Mvcc Driver
+
+structure STxn where
+  update : Bool
+  snap : List (Key × Option Val)
+  beginIdx : Nat
+  writes : List (Key × Option Val) := []
+  readKeys : List Key := []
+  done : Bool := false
+
+structure Spec where
+  cur : List (Key × Option Val) := []
+  ncommits : Nat := 0
+  history : List (Nat × List Key) := []        -- (commit index, keys written)
+  vlog : List (Key × Nat × Val) := []          -- live versions, newest first
+  lastV : Nat := 0                             -- version of the last successful commit
+  maxTs : Nat := 0                             -- largest version / read timestamp handed out
+  closed : Bool := false
+  txns : List (Nat × STxn) := []
+
+structure DSt where
+  cfg : MvccCfg := MvccCfg.good
+  /-- which property's specification the spec column prints ("C03" or "C04") -/
+  prop : String := "C03"
+  m : St := {}
+  sp : Spec := {}
+
+def fpOf (k : Key) : Nat := k.foldl (fun acc b => acc * 257 + b + 1) 0
+
+def setCfg (c : MvccCfg) (kv : String) : Option MvccCfg :=
+  match kv.splitOn "=" with
+  | [k, v] =>
+    match k with
+    | "oracle.readTsOff" => do let n ← natOf? v; pure { c with readTsOff := n }
+    | "txn.trackGet" => do let b ← boolOfString? v; pure { c with trackGet := b }
+    | "oracle.checksConflict" => do let b ← boolOfString? v; pure { c with checksConflict := b }
+    | "oracle.skipOp" => do let o ← CmpOp.ofString? v; pure { c with skipOp := o }
+    | "oracle.intentOp" => do let o ← CmpOp.ofString? v; pure { c with intentOp := o }
+    | "oracle.recordsCommit" => do let b ← boolOfString? v; pure { c with recordsCommit := b }
+    | "oracle.pruneOp" => do let o ← CmpOp.ofString? v; pure { c with pruneOp := o }
+    | "txn.countOp" => do let o ← CmpOp.ofString? v; pure { c with countOp := o }
+    | "txn.sizeOp" => do let o ← CmpOp.ofString? v; pure { c with sizeOp := o }
+    | "db.sendCountOp" => do let o ← CmpOp.ofString? v; pure { c with sendCountOp := o }
+    | "db.sendSizeOp" => do let o ← CmpOp.ofString? v; pure { c with sendSizeOp := o }
+    | "wm.tracksZero" => do let b ← boolOfString? v; pure { c with wmTracksZero := b }
+    | "wm.holdsAtDone" => do let b ← boolOfString? v; pure { c with wmHoldsAtDone := b }
+    | _ => none
+  | _ => none
+
+def valStr (v : Option Val) : String :=
+  match v with
+  | some b => "val:" ++ b.toHex
+  | none => "notfound"
+
+def versStr (l : List (Nat × Val)) : String :=
+  if l.isEmpty then "-" else ",".intercalate (l.map (fun p => s!"{p.1}={p.2.toHex}"))
+
+def outStr : Out → String
+  | .ok => "ok"
+  | .okTs ts => s!"ok {ts}"
+  | .val v => "val:" ++ v.toHex
+  | .notfound => "notfound"
+  | .conflict => "conflict"
+  | .toobig => "toobig"
+  | .blocked => "blocked"
+  | .readonly => "readonly"
+  | .discarded => "discarded"
+  | .closed => "closed"
+  | .notxn => "notxn"
+  | .vers l => versStr l
+
+def sGet (sp : Spec) (id : Nat) : Option STxn :=
+  match sp.txns.find? (fun p => p.1 = id) with
+  | some p => some p.2
+  | none => none
+
+def sPut (sp : Spec) (id : Nat) (t : STxn) : Spec := { sp with txns := (id, t) :: sp.txns }
+
+def mapGet (m : List (Key × Option Val)) (k : Key) : Option Val :=
+  match m.find? (fun p => p.1 = k) with
+  | some p => p.2
+  | none => none
+
+def mapSet (m : List (Key × Option Val)) (k : Key) (v : Option Val) : List (Key × Option Val) :=
+  (k, v) :: m.filter (fun p => p.1 ≠ k)
+
+/-- the specification's step: given the op and the model's answer, the allowed answers -/
+def specStep (prop : String) (sp : Spec) (op : Op) (mout : Out) (mts : Nat) : Spec × String :=
+  match op with
+  | .begin id upd =>
+    match mout with
+    | .okTs r =>
+      let t : STxn := { update := upd, snap := sp.cur, beginIdx := sp.ncommits }
+      let sp' := sPut { sp with maxTs := max sp.maxTs r } id t
+      (sp', if sp.lastV ≤ r then s!"ok {r}" else s!"read-ts-must-be>={sp.lastV}")
+    | _ => (sp, "ok*")
+  | .get id k =>
+    match sGet sp id with
+    | none => (sp, "notxn")
+    | some t =>
+      if t.done then (sp, "discarded")
+      else if sp.closed then (sp, "closed|" ++ valStr (mapGet t.snap k))
+      else
+        match (if t.update then t.writes.find? (fun p => p.1 = k) else none) with
+        | some p => (sp, valStr p.2)
+        | none =>
+          let t' := if t.update then { t with readKeys := k :: t.readKeys } else t
+          (sPut sp id t', valStr (mapGet t.snap k))
+  | .set id k v =>
+    match sGet sp id with
+    | none => (sp, "notxn")
+    | some t =>
+      if t.done then (sp, "readonly|discarded")
+      else if !t.update then (sp, "readonly")
+      else
+        let sp' := if mout = .ok then sPut sp id { t with writes := mapSet t.writes k v } else sp
+        (sp', "ok|toobig")
+  | .commit id =>
+    match sGet sp id with
+    | none => (sp, "notxn")
+    | some t =>
+      if t.done then (sp, "discarded")
+      else
+        let spDone := sPut sp id { t with done := true }
+        if t.writes.isEmpty then (spDone, "ok")
+        else if prop != "C04" &&
+            sp.history.any (fun h => decide (h.1 ≥ t.beginIdx) && h.2.any (fun k => t.readKeys.contains k)) then
+          -- C03: a later commit wrote a key this transaction read from its snapshot
+          -- (C04 runs do not judge conflict detection: only atomicity and versions)
+          (spDone, "conflict")
+        else
+          let errs := if sp.closed then "conflict|toobig|blocked" else "conflict|toobig"
+          if mout = .ok then
+            if sp.closed then (spDone, errs)
+            else if mts ≤ sp.maxTs then (spDone, errs ++ s!"|commit-version-must-be>{sp.maxTs}")
+            else
+              let keys := t.writes.map (·.1)
+              let sp' := { spDone with
+                cur := t.writes.foldr (fun p acc => mapSet acc p.1 p.2) sp.cur
+                history := (sp.ncommits, keys) :: sp.history
+                ncommits := sp.ncommits + 1
+                vlog := t.writes.filterMap (fun p => match p.2 with
+                                                     | some v => some (p.1, mts, v)
+                                                     | none => none) ++ sp.vlog
+                lastV := mts, maxTs := mts }
+              (sp', errs ++ "|ok")
+          else (spDone, errs ++ "|ok")
+  | .discard id =>
+    match sGet sp id with
+    | none => (sp, "notxn")
+    | some t => (sPut sp id { t with done := true }, "ok")
+  | .close => ({ sp with closed := true }, "ok")
+  | .versions k =>
+    if sp.closed then (sp, "*")
+    else (sp, versStr ((sp.vlog.filter (fun e => e.1 = k)).map (fun e => (e.2.1, e.2.2))))
+
+def parseOp? (toks : List String) : Option Op :=
+  match toks with
+  | ["begin", id, m] => do let id ← natOf? id; pure (.begin id (m == "u"))
+  | ["get", id, k] => do let id ← natOf? id; let k ← bytesOf? k; pure (.get id k)
+  | ["set", id, k, v] => do let id ← natOf? id; let k ← bytesOf? k; let v ← bytesOf? v; pure (.set id k (some v))
+  | ["del", id, k] => do let id ← natOf? id; let k ← bytesOf? k; pure (.set id k none)
+  | ["commit", id] => do let id ← natOf? id; pure (.commit id)
+  | ["commitwith", id] => do let id ← natOf? id; pure (.commit id)
+  | ["discard", id] => do let id ← natOf? id; pure (.discard id)
+  | ["close"] => some .close
+  | ["versions", k] => do let k ← bytesOf? k; pure (.versions k)
+  | _ => none
+
+def dstep (st : DSt) (toks : List String) : DSt × String :=
+  match toks with
+  | "cfg" :: kvs =>
+    let prop := (kv? kvs "prop").getD st.prop
+    match (kvs.filter (fun t => !t.startsWith "prop=")).foldlM setCfg st.cfg with
+    | some c => ({ st with cfg := c, prop := prop }, "ok")
+    | none => (st, "bad-cfg")
+  | ["open", a, b, t] =>
+    match natOf? a, natOf? b, natOf? t with
+    | some a, some b, some t => ({ st with m := init a b t, sp := {} }, "ok\t*")
+    | _, _, _ => (st, "bad-op")
+  | _ =>
+    match parseOp? toks with
+    | none => (st, "bad-op")
+    | some op =>
+      let (m', out) := step st.cfg fpOf st.m op
+      let mts := match m'.log with
+        | cm :: _ => cm.ts
+        | [] => 0
+      let (sp', spec) := specStep st.prop st.sp op out mts
+      ({ st with m := m', sp := sp' }, outStr out ++ "\t" ++ spec)
+
+def main : IO Unit := Driver.loop ({} : DSt) dstep
